@@ -148,48 +148,42 @@ def check_text_format(rep, prog):
     pu = I.new(PU, [Const("O"), Const(0x2000), Const(3), Sym("ver"), P])
     r = I.method(pu, "getBuiltinFormatJSON")
     where = "ParseUserData.getBuiltinFormatJSON"
-    loops = [L for L in I.loops.values() if L.func.endswith("getBuiltinFormatJSON")]
-    if len(loops) != 1:
-        raise AnalysisError("text format is not rendered by one loop over the characters")
-    L = loops[0]
-    src = L.iter
-    rep.check(is_stripped_decode(src), rule, "text lines are built from the decoded payload (padding stripped)", where, L.node,
-              "text is not built from the decoded payload: %r" % (src,), node=L.node)
-    ch = Op("elem", src, L.idx)
-    line = [c for k, c in L.carried.items() if "." not in k]
-    ok = False
+    # The text renderer is *run as a summary* on sample payloads and compared with the documented rendering: decode, strip
+    # surrounding blanks and trailing NULs, one line per newline plus a non-empty remainder, every character outside
+    # ' '..'~' shown as '.'.  (Any loop idiom: character loop with an accumulator, split + comprehension, ...)
+    def reference(data):
+        text = data.decode().strip().rstrip("\x00")
+        lines, line = [], ""
+        for ch in text:
+            if ch != "\n":
+                line += ch if " " <= ch <= "~" else "."
+            else:
+                lines.append(line)
+                line = ""
+        if line != "":
+            lines.append(line)
+        return lines
+    if not (isinstance(r, Op) and r.op == "json.dumps" and len(r.args) == 1):
+        raise AnalysisError("text format does not return json.dumps(<list of lines>): %r" % (r,))
+    samples = [b"line one\nline two", b"abc\n", b"a\x01b\x7fc\n\ncd", b"", b"   padded  \x00\x00", b"tab\there\x00", b"caf\xc3\xa9\nx",
+               b"\n", b"a\n\n", b"x\r\ny", b"~ {}|\x1f\x20!", b"\x00\x00", b"one\ntwo\nthree\n", b"\xe2\x80\xa8sep", b"\n\nlead"]
+    samples += [bytes([k]) + b"|" for k in range(1, 0x80) if k not in (9, 10, 11, 12, 13, 28, 29, 30, 31, 32)]
     bad = None
-    if line:
-        init, nxt, d, w = line[0]
-        repl = [x for x in walk(nxt) if isinstance(x, Ite) and ((x.a == Const(".") and x.b == ch) or (x.b == Const(".") and x.a == ch))]
-        if repl:
-            x = repl[0]
-            cond = x.c if x.a == Const(".") else not_(x.c)
-            ok = True
-            for k in list(range(0, 0x180)) + [0x2028, 0xFFFF, 0x1F600]:
-                if k == 10:
-                    continue
-                try:
-                    got = bool(evaluate(cond, {ch: chr(k)}))
-                except CannotEval as e:
-                    raise AnalysisError("printable test not evaluable: %s" % e)
-                want = k < 0x20 or k > 0x7E
-                if got != want:
-                    ok = False
-                    bad = "character U+%04X %r is %s" % (k, chr(k), "replaced by '.'" if got else "kept")
-                    break
-        else:
-            bad = "no 'replace by .' alternative found in %r" % (nxt,)
-    rep.check(ok, rule, "only characters outside ' '..'~' are replaced by '.' (checked for U+0000..U+017F and samples beyond)", where,
-              "if ord(ch) < ord(' ') or ord(ch) > ord('~')", "text format alters printable characters / keeps unprintable ones: %s" % bad)
-    # lines: one per newline + the trailing partial line
-    if isinstance(r, Op) and r.op == "json.dumps":
-        items = list_items(I, r.args[0]) or []
-        reps = [i for i in items if i[0] == "rep" and i[1] is L]
-        tail = [i for i in items if i[0] == "v"]
-        okl = len(reps) == 1 and len(tail) == 1 and compare("eq", ch, Const("\n")) in (reps[0][3].args if isinstance(reps[0][3], Op) and reps[0][3].op == "and" else [reps[0][3]])
-        rep.check(okl, rule, "a line is emitted at every newline and for the trailing partial line", where, "lines.append(line)",
-                  "lines are not emitted at each newline plus the remainder: %r" % (items,))
+    n = 0
+    for data in samples:
+        env = pelx.with_heap(I, {P: data, Op("len", P): len(data)})
+        try:
+            got = evaluate(r.args[0], env)
+        except CannotEval as e:
+            raise AnalysisError("text format summary not evaluable: %s" % e)
+        n += 1
+        want = reference(data)
+        if list(got) != want and bad is None:
+            bad = "payload %r is rendered %r, documented rendering %r" % (data, got, want)
+    rep.count("text payload samples evaluated", n)
+    rep.check(bad is None, rule, "text format = one line per newline (+ non-empty remainder) of the stripped payload text, characters "
+              "outside ' '..'~' replaced by '.' (summary run on %d payloads)" % n, where, "lines.append(line)",
+              "text format output differs from the documented rendering: %s" % bad)
     # JSON format: the text itself
     pu2 = I.new(PU, [Const("O"), Const(0x2000), Const(1), Sym("ver"), P])
     r2 = I.method(pu2, "getBuiltinFormatJSON")
